@@ -860,13 +860,14 @@ def _data_init(n_inputs):
     def setup(G):
         b = Bag(times=[], leadtimes=[], ids=[])
         for i in range(n_inputs):
-            b.times.append(G.array("times%d" % i, ("t%d" % i,), kinds=(FIN,), grid=[0.0, 21600.0, 86400.0]))
+            # incl. initialisation times before 1970 (negative unix times): 1969-12-31 00 and 06 UTC
+            b.times.append(G.array("times%d" % i, ("t%d" % i,), kinds=(FIN,), grid=[0.0, 21600.0, 86400.0, -86400.0, -64800.0]))
             b.leadtimes.append(G.array("lead%d" % i, ("l%d" % i,), kinds=(FIN,), grid=[0.0, 6.0, 12.0]))
             b.ids.append(G.array("ids%d" % i, ("s%d" % i,), kinds=(FIN,), grid=[0.0, 1.0, 2.0]))
         for flag in ("t", "d", "tod", "o", "l", "lx", "lat", "lon", "elev"):
             b["use_" + flag] = G.boolean("use_" + flag)
-        b.t = G.array("opt_t", ("ot",), kinds=(FIN,), grid=[0.0, 21600.0, 86400.0, 86400.0, 7.0])
-        b.d = G.array("opt_d", ("od",), kinds=(FIN,), grid=[19700101.0, 19700102.0, 19700101.0, 19700103.0])
+        b.t = G.array("opt_t", ("ot",), kinds=(FIN,), grid=[0.0, 21600.0, 86400.0, -64800.0, 7.0])
+        b.d = G.array("opt_d", ("od",), kinds=(FIN,), grid=[19700101.0, 19700102.0, 19691231.0, 19700103.0])
         b.tod = G.array("opt_tod", ("otod",), kinds=(FIN,), grid=[0.0, 6.0, 0.0, 12.0])
         b.o = G.array("opt_o", ("oo",), kinds=(FIN,), grid=[0.0, 6.0, 12.0, 24.0])
         b.l = G.array("opt_l", ("ol",), kinds=(FIN,), grid=[0.0, 1.0, 2.0, 7.0])
@@ -933,8 +934,9 @@ L_MENU = [None, [0.0], [1.0, 2.0], [2.0, 0.0, 7.0]]
 LX_MENU = [None, [1.0], [0.0, 2.0]]
 
 
-def _location_ranges(n_stations):
+def _location_ranges(n_stations, menus=True):
     import verif.location
+    L_MENU_, LX_MENU_ = (L_MENU, LX_MENU) if menus else ([None], [None])
 
     def setup(G):
         b = Bag(lat=[], lon=[], elev=[])
@@ -946,8 +948,8 @@ def _location_ranges(n_stations):
             b["use_" + nm] = G.boolean("use_" + nm)
             b[nm + "_lo"] = G.num(nm + "_lo", numpy=False, grid=grid)
             b[nm + "_hi"] = G.num(nm + "_hi", numpy=False, grid=grid)
-        b.l = G.choice("l", L_MENU)
-        b.lx = G.choice("lx", LX_MENU)
+        b.l = G.choice("l", L_MENU_)
+        b.lx = G.choice("lx", LX_MENU_)
         return b
 
     def call(inp):
@@ -991,6 +993,10 @@ for _n in (1, 2):
     register(Obligation("verif.data.Data.__init__#POST:location-options[%d-station%s]" % (_n, "s" if _n > 1 else ""), ("C03",), s, c, p, raises=r, modules=MOD,
                         functions=["verif.data.Data.__init__"],
                         doc="for all real / NaN / infinite station coordinates and all range end points; station count and the -l/-lx lists are fixed"))
+s, c, p, r = _location_ranges(3, menus=False)
+_o3 = register(Obligation("verif.data.Data.__init__#POST:location-options[3-stations,ranges-only]", ("C03",), s, c, p, raises=r, modules=MOD,
+                          functions=["verif.data.Data.__init__"], doc="thorough tier: three stations, the three ranges, no -l/-lx"))
+_o3.thorough_only = True
 
 
 # ----------------------------------------------------------------------------------------------
